@@ -220,6 +220,16 @@ Supported(s, mode) ==
     [] OTHER -> FALSE
 Modes == <<"center", "subpixels", "exact">>
 
+(* ---------------- derived polygons ---------------- *)
+(* corners of a rotated rectangle, in units 1/(2 h U) (h = d[3]): the order of RectanglePixelRegion.corners            *)
+(* (-w/2,-h/2), (w/2,-h/2), (w/2,h/2), (-w/2,h/2), each rotated by the region's direction about the centre               *)
+CornerSigns == << <<-1, -1>>, <<1, -1>>, <<1, 1>>, <<-1, 1>> >>
+Corners2h(s) == [k \in 1..4 |->
+   <<2 * s.d[3] * s.cx + CornerSigns[k][1] * s.w * s.d[1] - CornerSigns[k][2] * s.h * s.d[2],
+     2 * s.d[3] * s.cy + CornerSigns[k][1] * s.w * s.d[2] + CornerSigns[k][2] * s.h * s.d[1]>>]
+(* to_polygon(): the polygon of the corners (same include flag); expressed in units 1/(2 h U) *)
+ToPolygon2h(s) == [k |-> "polygon", vs |-> Corners2h(s), inc |-> s.inc]
+
 (* ---------------- rigid motions ---------------- *)
 (* Rotating by e = <<c, s, h>> about pivot multiplies the unit by h: the result is expressed  *)
 (* in units 1/(U h).                                                                          *)
